@@ -379,8 +379,10 @@ Example C10_conc_example :
 Proof. vm_compute. repeat split; reflexivity. Qed.
 
 (* What indexLock is for.  A history alternates sequential phases (any operations, Delete and GC
-   included) and batches of concurrent Push / Tag / Untag / SaveIndex calls under any schedule
-   that lets all calls of the batch return ([phases_quiet]).  Then index.json is exactly what
+   included, completed or interrupted with the store reopened: PSeq), batches of concurrent
+   Push / Tag / Untag / SaveIndex calls under any schedule that lets all calls of the batch
+   return (PConc, [phases_quiet]) and batches killed after any prefix of any schedule, the
+   store reopened (PConcCrash).  Then index.json is exactly what
    saveIndex would write from the resolver now: no completed Tag, Untag or manifest Push is
    missing from it, whatever the interleaving of the resolver updates, snapshots and renames
    was (the last publisher took its snapshot after every other call's resolver update). *)
@@ -426,9 +428,10 @@ Print Assumptions C10_conc_refuted_without_indexlock.
 
 (* the hypothesis is satisfiable *)
 Theorem C10_conc_phases_example :
-  let ps := [PSeq [Push 1 [5] true];
+  let ps := [PSeq [Done (Push 1 [5] true)];
              PConc [CTag 1 10; CTag 1 11] [0; 0; 1; 1; 0; 0; 1; 1; 1; 1]%nat;
-             PSeq [Untag 10];
+             PSeq [Crashed (Untag 10) 1; Done (Untag 10)];
+             PConcCrash [CTag 1 12; CSaveIndex] [0; 1; 0]%nat;
              PConc [CPush 1 [6] false; CSaveIndex] [1; 0; 1; 0; 1; 0]%nat] in
   phases_quiet (fun _ => 1) (fun _ l => l) src_inplace src_unlink_first init ps = true /\
   read_index (sfs (run_phases (fun _ => 1) (fun _ l => l) src_inplace src_unlink_first init ps)) = Some [(1, Some 11)].
